@@ -2,7 +2,10 @@
 //!
 
 use std::ops::Deref;
+#[cfg(not(feature = "verif"))]
 use std::sync::{Arc, Condvar, Mutex};
+#[cfg(feature = "verif")]
+use crate::verif::sync::{Arc, Condvar, Mutex};
 use std::time;
 use tokio::time::timeout;
 use triggered::Listener;
